@@ -70,6 +70,78 @@ Proof. exact seed_monotone. Qed.
 Theorem C02_sign_symmetric : forall img fl sd, islands (neg_image img) fl sd = islands img fl sd.
 Proof. exact sign_symmetric. Qed.
 
+(* ---------- non-vacuity: a concrete image on which every premise above is satisfiable ----------
+   4 x 5, bkg = 0, rms = 1, flood 3, seed 5:
+     island A = {(0,0)=10, (1,1)=3}   touching only diagonally, seed pixel (0,0)
+     group  B = {(0,4)=4, (1,4)=4}    passes the flood test but has no seed pixel: dropped
+     island C = {(3,1)=-7, (3,2)=-6}  negative
+     (0,2) is NaN: it is an 8-neighbour of (1,1) but belongs to no island *)
+Definition ex_px (i : Z) : pixel := mkPixel (Some i) (Some 0) (Some 1).
+Definition ex_nan : pixel := mkPixel None (Some 0) (Some 1).
+Definition ex_img : image :=
+  [[ex_px 10; ex_px 0;    ex_nan;     ex_px 1; ex_px 4];
+   [ex_px 0;  ex_px 3;    ex_px 0;    ex_px 0; ex_px 4];
+   [ex_px 0;  ex_px 0;    ex_px 0;    ex_px 0; ex_px 0];
+   [ex_px 2;  ex_px (-7); ex_px (-6); ex_px 0; ex_px 0]].
+Definition ex_fl : clip := mkClip 3 1.
+Definition ex_sd : clip := mkClip 5 1.
+Definition ex_A : list pix := [(1, 1); (0, 0)].
+Definition ex_B : list pix := [(1, 4); (0, 4)].
+Definition ex_C : list pix := [(3, 2); (3, 1)].
+
+Example ex_rms_pos : rms_pos ex_img.
+Proof. apply rms_pos_check. vm_compute. reflexivity. Qed.
+Example ex_clip_ok : clip_ok ex_fl /\ clip_ok ex_sd /\ clip_ok (mkClip 13 2) /\ clip_le ex_sd (mkClip 13 2).
+Proof. vm_compute. repeat split; discriminate. Qed.
+
+Example ex_groups : components pix pix_eqb adj (nodes ex_img ex_fl) = [ex_A; ex_B; ex_C].
+Proof. vm_compute. reflexivity. Qed.
+Example ex_islands : islands ex_img ex_fl ex_sd = [ex_A; ex_C].
+Proof. vm_compute. reflexivity. Qed.
+Example ex_islands_higher_seed : islands ex_img ex_fl (mkClip 13 2) = [ex_A; ex_C].
+Proof. vm_compute. reflexivity. Qed.
+Example ex_obs : obs ex_img ex_fl ex_sd =
+  [((0, 2, 0, 2), ex_A, [(0, 0); (1, 1)]); ((3, 4, 1, 3), ex_C, [(3, 1); (3, 2)])].
+Proof. vm_compute. reflexivity. Qed.
+Example ex_nan_pixel : get ex_img (0, 2) = Some ex_nan /\ flood_ok ex_img ex_fl (0, 2) = false /\
+                       adj (0, 2) (1, 1) = true.
+Proof. vm_compute. auto. Qed.
+Example ex_B_fails_seed : existsb (flood_ok ex_img ex_fl) ex_B = true /\
+                          existsb (seed_ok ex_img ex_sd) ex_B = false.
+Proof. vm_compute. auto. Qed.
+
+Example ex_A_in : In ex_A (islands ex_img ex_fl ex_sd).
+Proof. rewrite ex_islands. left. reflexivity. Qed.
+
+(* the theorems applied: the diagonal touch links (0,0) and (1,1); B's pixels are linked to no seed *)
+Example ex_diagonal_linked : linked ex_img ex_fl (0, 0) (1, 1).
+Proof.
+  destruct (C02_islands_sound ex_img ex_fl ex_sd ex_A ex_A_in) as (_ & _ & _ & Hl & _).
+  apply (Hl (0, 0) (1, 1)); vm_compute; auto.
+Qed.
+Example ex_complete_premises :
+  flood_ok ex_img ex_fl (1, 1) = true /\ linked ex_img ex_fl (1, 1) (0, 0) /\
+  seed_ok ex_img ex_sd (0, 0) = true /\ flood_ok ex_img ex_fl (0, 0) = true.
+Proof.
+  split; [reflexivity|split; [|split; reflexivity]].
+  destruct (C02_islands_sound ex_img ex_fl ex_sd ex_A ex_A_in) as (_ & _ & _ & Hl & _).
+  apply (Hl (1, 1) (0, 0)); vm_compute; auto.
+Qed.
+Example ex_B_in_no_island : forall I, In I (islands ex_img ex_fl ex_sd) -> ~ In (0, 4) I /\ ~ In (1, 4) I.
+Proof.
+  rewrite ex_islands. intros I [<-|[<-|[]]]; split; intros H; cbn [In ex_A ex_C] in H;
+    repeat (destruct H as [H|H]; [discriminate H|]); exact H.
+Qed.
+Example ex_disjoint_premises :
+  nth_error (islands ex_img ex_fl ex_sd) 0 = Some ex_A /\ nth_error (islands ex_img ex_fl ex_sd) 1 = Some ex_C.
+Proof. rewrite ex_islands. split; reflexivity. Qed.
+Example ex_monotone_premise : In ex_A (islands ex_img ex_fl (mkClip 13 2)).
+Proof. rewrite ex_islands_higher_seed. left. reflexivity. Qed.
+Example ex_sign : islands (neg_image ex_img) ex_fl ex_sd = [ex_A; ex_C].
+Proof. vm_compute. reflexivity. Qed.
+
+Print Assumptions C02_flood_rule.
+Print Assumptions C02_seed_rule.
 Print Assumptions C02_islands_sound.
 Print Assumptions C02_islands_complete.
 Print Assumptions C02_disjoint.
